@@ -6,7 +6,9 @@ C10 — model of the ignore-directive decision core of /repo:
 * `lintcmd/lint.go:lineIgnore.match / fileIgnore.match` ↦ `Ignore.matchB`
 * `lintcmd/lint.go:filterIgnored` (incl. the closure `couldHaveMatched`) ↦ `filterIgnored`
 * `lintcmd/lint.go:success`                    ↦ `success`
-* `unused/unused.go` (ignores map: which objects a directive marks as used) ↦ `u1000Ignores`
+* `unused/unused.go`, `(*graph).entry`: the loop filling the `ignores` map and the two lookups per
+  object ↦ `u1000Key`, `u1000Keys`, `u1000Used`, `u1000Marked` (transliteration); `u1000Ignores` is
+  the same rule for a single directive, stated with `checksMatch`
 * `path/filepath.Match` restricted to patterns over letters/digits/`*`/`?`
   (no brackets, no escapes, no separators) ↦ `globMatch`
 * `strings.ToLower` on ASCII ↦ `lower`
